@@ -258,12 +258,16 @@ def unrolled(ex, s, st, items):
 
 
 UNROLL_UNKNOWN = 3      # a loop the contracts do not know is executed completely for sequences of up to this many items
+UNROLL_SETS = False     # the same for loops over sets and for comprehensions run as loops: tried and switched off.  Two behaviour-preserving
+                        # restructurings (DESIGN 8.8) were refuted on such exactly executed paths, because the new code relied on a fact the
+                        # contract's precondition does not state (a class invariant) or on ghost bookkeeping attached to the old shape: a failed
+                        # proof, not a violation.  Those loops are cut trivially and stay 'undecided'.
 
 
 def for_seq(ex, s, st, it, item_of=None, index_values=None):
     """for x in <tuple of symbolic length>: index loop cut by the invariant"""
     key = loop_key(ex, s)
-    if ex.spec.invariants.get(key) is None and index_values is None and not getattr(ex, 'discovery', 0):
+    if ex.spec.invariants.get(key) is None and index_values is None and not getattr(ex, 'discovery', 0) and (UNROLL_SETS or not getattr(s, '_comp_key', None)):
         # no invariant for this loop (code the contracts were not written for).  Sequences of 0..UNROLL_UNKNOWN items: the loop is unrolled
         # completely -- on those paths nothing is forgotten, a counter-model is a genuine one (bounded refutation; it proves nothing by
         # itself).  Longer sequences: cut with the trivial invariant (paths marked .noinv: a counter-model there is 'undecided').
@@ -333,6 +337,31 @@ def _target_names(t):
 
 def for_set(ex, s, st, it, item_of=None):
     """for x in <set>: arbitrary iteration order; ghost `done` = elements already visited"""
+    key = loop_key(ex, s)
+    if UNROLL_SETS and ex.spec.invariants.get(key) is None and not getattr(ex, 'discovery', 0):
+        # (switched off, see UNROLL_SETS) a loop over a set that the contracts do not know: sets of 0..UNROLL_UNKNOWN elements are enumerated ({x1..xm}, pairwise distinct,
+        # visited in this order -- which is an arbitrary order, the names being arbitrary) and the loop is unrolled completely on those paths
+        # (a counter-model there is genuine); larger sets: cut with the trivial invariant (.noinv)
+        ex.spec.note_assumption(f'loop `{key}` has no invariant in the contract: unrolled for sets of up to {UNROLL_UNKNOWN} elements (bounded), cut trivially beyond')
+        dom = it.arr.sort().domain()
+        def wrap(x): return item_of(x) if item_of else ZV('ref', x) if it.ekind == 'ref' else ZV('val', x) if it.ekind == 'val' else ZV('str', x)
+        outs = []
+        e = fresh('e', dom)
+        for m in range(UNROLL_UNKNOWN + 1):
+            xs = [fresh(f'x{k}', dom) for k in range(m)]
+            sm = st.copy()
+            sm.assume(ForAll([e], it.arr[e] == (Or(*[e == x for x in xs]) if xs else BoolVal(False))), *[it.arr[x] for x in xs])
+            if m > 1: sm.assume(z3.Distinct(*xs))
+            sm.label(f'loop[{key}].unrolled{m}')
+            if ex.feasible(sm): outs.extend(unrolled(ex, s, sm, [wrap(x) for x in xs]))
+        ys = [fresh(f'y{k}', dom) for k in range(UNROLL_UNKNOWN + 1)]
+        rest = st.copy(); rest.assume(z3.Distinct(*ys), *[it.arr[y] for y in ys])
+        if ex.feasible(rest): outs.extend(_for_set_cut(ex, s, rest, it, item_of))
+        return outs
+    return _for_set_cut(ex, s, st, it, item_of)
+
+
+def _for_set_cut(ex, s, st, it, item_of=None):
     key = loop_key(ex, s); inv = _inv(ex, key)
     pre = ex.spec.pre_view
     dom = it.arr.sort().domain()
@@ -375,6 +404,34 @@ def bind_loop_locals(st, body):
 
 
 def run_while(ex, s, st):
+    key = loop_key(ex, s)
+    always = isinstance(s.test, ast.Constant) and s.test.value is True
+    if ex.spec.invariants.get(key) is None and not always and not getattr(ex, 'discovery', 0):
+        # a `while` loop the contracts do not know: its first UNROLL_UNKNOWN iterations are executed as they stand (nothing is forgotten on the
+        # paths that leave the loop within them: a counter-model there is genuine); a path that is still inside afterwards is cut trivially (.noinv)
+        ex.spec.note_assumption(f'loop `{key}` has no invariant in the contract: {UNROLL_UNKNOWN} iterations unrolled (bounded), cut trivially beyond')
+        st = bind_loop_locals(st, s.body)
+        outs, cur = [], [st]
+        for m in range(UNROLL_UNKNOWN + 1):
+            nxt = []
+            for s0 in cur:
+                for s1, t in ex.ev(s.test, s0):
+                    if isinstance(t, Raise): outs.append((s1, ('raise', t.exc))); continue
+                    for s2, side in ex.fork(s1, truth(t, s1), f'loop[{key}].unrolled{m}'):
+                        if not side:
+                            outs.extend(ex.run_block(s.orelse, s2) if s.orelse else [(s2, NEXT)]); continue
+                        if m == UNROLL_UNKNOWN:
+                            outs.extend(_run_while_cut(ex, s, s2)); continue
+                        for s3, f3 in ex.run_block(s.body, s2):
+                            if f3 is NEXT or f3[0] == 'continue': nxt.append(s3)
+                            elif f3[0] == 'break': outs.append((s3, NEXT))
+                            else: outs.append((s3, f3))
+            cur = nxt
+        return outs
+    return _run_while_cut(ex, s, st)
+
+
+def _run_while_cut(ex, s, st):
     key = loop_key(ex, s); inv = _inv(ex, key)
     st = bind_loop_locals(st, s.body)
     pre = ex.spec.pre_view
